@@ -21,7 +21,7 @@ Md4Bits == { OneHot(55, b) : b \in { x \in 0..439 : x % BitStep = 0 } }
 Md4Random == { Pattern(Seed * 31 + i, (Seed * 17 + i * 37) % 321) : i \in 1..NRandom }
 
 (* --- passwords / users as code point sequences --- *)
-Alphabet == { 97, 90, 48, 32, 233, 201, 1046, 1078, 8364, 65535, 65536, 128512, 1114111 }
+Alphabet == { 97, 90, 48, 32, 233, 201, 1046, 1078, 8364, 57344, 65533, 65535, 65536, 128512, 1114111 }   \* incl. U+E000 (first after the surrogates) and U+FFFD (the decoders' error sentinel, spelled in the input)
 PwSet == SeqsUpTo(Alphabet, PwLen)
       \cup { [i \in 1..n |-> 97 + (i % 26)] : n \in {13, 14, 15, 27, 28, 29, 31, 32, 33} }       \* NT: 27/28 chars straddle the 55/56-byte padding boundary
       \cup { [i \in 1..n |-> IF i % 3 = 0 THEN 128512 ELSE 1046] : n \in {5, 9, 20} }
